@@ -1,3 +1,3 @@
 Require Import ExtrOcamlBasic.
-Require Import V.C07.Model.
+Require Import V.C07.Run.
 Extraction "model.ml" run_case.
